@@ -18,7 +18,7 @@ RULE = ("Events are {write-clock edge, read-clock edge, both edges in the same i
         "set beforehand; the harness owns both clocks (ctx.set on the clock signals, simultaneous edges via one "
         "ctx.set on Cat(w_clk, r_clk)). (a) graph: complete reachable state graph (implementation state x monitor "
         "queue) for the smallest depths, every event x every input at every state; a state cap is reported if hit. "
-        "(b) walks: Hypothesis event lists (bursts of one clock, simultaneous edges) for depth<=16, width<=8, followed "
+        "(b) walks: Hypothesis event lists (bursts of one clock, simultaneous edges) for depth<=16, width<=8, with default or caller-chosen domain names and with or without exact_depth=True, followed "
         "by a drain phase: writing stops and alternating edges with r_en=1 must deliver everything within len+10 rounds. "
         "(c) elaboration: every depth 0..40 x exact_depth either raises ValueError in the constructor or elaborates, "
         "simulates one step and converts to RTLIL. (d) pairs: two FIFOs as sibling submodules over the same two clock "
@@ -189,7 +189,12 @@ def walk_cases(draw, nsteps):
         ev = {"mix": None, "wburst": "w", "rburst": "r", "both": "b"}[mode] or PICK(draw, ["w", "r", "b"])
         we = [0, draw(INT(0, 1)), 1][wmode]
         steps.append([ev, we, draw(INT(0, (1 << width) - 1)), draw(INT(0, 3)) != 0])
-    return {"kind": kind, "depth": depth, "width": width, "steps": steps,
+    # exact_depth=True is the other spelling of a depth the class supports as it stands (a power of two, plus one for
+    # the buffered class); it is asked for on such depths only
+    exact = draw(INT(0, 2)) == 0
+    if exact:
+        depth = (1 << draw(INT(0, 4))) + (1 if kind == "AsyncFIFOBuffered" else 0)
+    return {"kind": kind, "depth": depth, "width": width, "steps": steps, "exact": exact,
             "domains": PICK(draw, [None, None, ["rd", "wr"], ["write", "read"], ["sync", "fast"]])}
 
 
@@ -203,7 +208,9 @@ def longest_run(steps, ev):
 
 def walk_body(ctx, case):
     kind, depth, width = case["kind"], case["depth"], case["width"]
-    sim, rcd, wcd, fifo = make(kind, depth, width, case=case)
+    sim, rcd, wcd, fifo = make(kind, depth, width, bool(case.get("exact")), case=case)
+    if case.get("exact") and fifo.depth != depth:
+        raise Mismatch("exact-depth-not-honoured", requested=depth, actual=fifo.depth)
     fail = []
     st_ = dict(full=False, emptied=False, moved=0)
 
@@ -252,6 +259,7 @@ def walk_body(ctx, case):
     bursts = longest_run(steps, "w") >= 3 and longest_run(steps, "r") >= 3
     if simult: keys.append("walk:simultaneous-edges")
     if case.get("domains"): keys.append(f"walk:{kind}-with-named-domains")
+    if case.get("exact"): keys.append(f"walk:{kind}-exact-depth")
     if bursts: keys.append("walk:bursts")
     if st_["full"]: keys.append("walk:full")
     if st_["emptied"]: keys.append("walk:emptied")
@@ -393,7 +401,7 @@ REQUIRED = ["graph:AsyncFIFO", "graph:AsyncFIFOBuffered", "graph:full", "graph:s
             "walk:simultaneous-edges", "walk:bursts", "walk:full", "walk:emptied", "elab:elaborated",
             "elab:rejected-by-constructor", "elab:actual-depth-1", "elab:actual-depth-2",
             "walk:AsyncFIFO-with-named-domains", "walk:AsyncFIFOBuffered-with-named-domains",
-            "pair:crossed", "pair:parallel", "pair:same-class", "pair:different-classes", "pair:both-moved"]
+            "walk:AsyncFIFO-exact-depth", "walk:AsyncFIFOBuffered-exact-depth", "pair:crossed", "pair:parallel", "pair:same-class", "pair:different-classes", "pair:both-moved"]
 
 
 def coverage_extra(tier, counters, extra):
